@@ -172,6 +172,9 @@ var implOps = map[string]func(h caseHead, raw []byte) map[string]any{
 	"c13":  implC13,
 	"report": implReport,
 	"c14":    implC14,
+	"c05":    implC05,
+	"c15":    implC15,
+	"c07":    implC07,
 	"c08":    func(h caseHead, raw []byte) map[string]any { return implC08(h, raw) },
 }
 
@@ -621,5 +624,199 @@ func implC08(h caseHead, raw []byte) (res map[string]any) {
 		msg = msg[:300]
 	}
 	res["errFull"] = msg
+	return res
+}
+
+// c07: does the declarative profile compile?
+func implC07(h caseHead, raw []byte) (res map[string]any) {
+	res = map[string]any{}
+	defer func() {
+		if r := recover(); r != nil {
+			res["outcome"] = "panic"
+			res["err"] = fmt.Sprint(r)
+		}
+	}()
+	done := make(chan error, 1)
+	go func() {
+		defer func() {
+			if r := recover(); r != nil {
+				done <- fmt.Errorf("panic: %v", r)
+			}
+		}()
+		_, err := pkg.CompileProfile(h.Profile, false, nil)
+		done <- err
+	}()
+	select {
+	case err := <-done:
+		if err != nil {
+			res["outcome"] = "error"
+			msg := err.Error()
+			if len(msg) > 400 {
+				msg = msg[:400]
+			}
+			res["err"] = msg
+		} else {
+			res["outcome"] = "ok"
+		}
+	case <-time.After(120 * time.Second):
+		res["outcome"] = "timeout"
+	}
+	return res
+}
+
+// c05: canonical index of every serialisation, and the verdicts of a few profiles on each
+type c05Head struct {
+	Docs []struct {
+		Text string `json:"text"`
+	} `json:"docs"`
+	Profiles []string `json:"profiles"`
+}
+
+func canonValue(v any) string {
+	switch x := v.(type) {
+	case string:
+		return "s:" + x
+	case json.Number:
+		return "n:" + x.String()
+	case float64:
+		return fmt.Sprintf("n:%v", x)
+	case bool:
+		return fmt.Sprintf("b:%v", x)
+	case map[string]any:
+		if id, ok := x["@id"].(string); ok && len(x) == 1 {
+			return "r:" + id
+		}
+		b, _ := json.Marshal(x)
+		return "o:" + string(b)
+	default:
+		b, _ := json.Marshal(x)
+		return "?:" + string(b)
+	}
+}
+
+func asList(v any) []any {
+	if l, ok := v.([]any); ok {
+		return l
+	}
+	return []any{v}
+}
+
+func canonIndexOf(text string) (nodes []any, outcome string) {
+	defer func() {
+		if r := recover(); r != nil {
+			nodes, outcome = nil, "panic: "+fmt.Sprint(r)
+		}
+	}()
+	res, err := verifhook.ProcessInput(text, nil)
+	if err != nil {
+		return nil, "error: " + err.Error()
+	}
+	ids, _ := res.(map[string]any)["@ids"].(map[string]any)
+	var keys []string
+	for k := range ids {
+		keys = append(keys, k)
+	}
+	sort.Strings(keys)
+	for _, k := range keys {
+		n := ids[k].(map[string]any)
+		var types []string
+		props := map[string][]string{}
+		for pk, pv := range n {
+			switch pk {
+			case "@id":
+			case "@type":
+				for _, t := range asList(pv) {
+					types = append(types, fmt.Sprint(t))
+				}
+			default:
+				vs := []string{}
+				for _, v := range asList(pv) {
+					vs = append(vs, canonValue(v))
+				}
+				sort.Strings(vs)
+				props[pk] = vs
+			}
+		}
+		sort.Strings(types)
+		if types == nil {
+			types = []string{}
+		}
+		nodes = append(nodes, map[string]any{"id": k, "types": types, "props": props})
+	}
+	if nodes == nil {
+		nodes = []any{}
+	}
+	return nodes, "ok"
+}
+
+func implC05(h caseHead, raw []byte) map[string]any {
+	var ch c05Head
+	json.Unmarshal(raw, &ch)
+	res := map[string]any{}
+	var docs []any
+	for _, d := range ch.Docs {
+		nodes, outcome := canonIndexOf(d.Text)
+		entry := map[string]any{"outcome": outcome, "index": nodes}
+		var verdicts []any
+		for _, p := range ch.Profiles {
+			o := validate(p, d.Text, defaultRC())
+			if o.Kind != "ok" {
+				verdicts = append(verdicts, o.Kind)
+				continue
+			}
+			rv, err := ReadReport(o.Report)
+			if err != nil {
+				verdicts = append(verdicts, "badreport")
+				continue
+			}
+			set := map[string]bool{}
+			for _, r := range rv.Results {
+				set[r.Severity+"|"+r.Shape+"|"+r.Focus+"|"+r.Message] = true
+			}
+			verdicts = append(verdicts, map[string]any{"conforms": rv.Conforms, "results": sortedKeys(set)})
+		}
+		entry["verdicts"] = verdicts
+		docs = append(docs, entry)
+	}
+	res["outcome"] = "ok"
+	res["docs"] = docs
+	return res
+}
+
+// c15: the same profile in several spellings on the same data
+type c15Head struct {
+	ProfileB string `json:"profileB"`
+	ProfileC string `json:"profileC"`
+}
+
+func implC15(h caseHead, raw []byte) map[string]any {
+	var ch c15Head
+	json.Unmarshal(raw, &ch)
+	res := map[string]any{}
+	one := func(p string) map[string]any {
+		o := validate(p, h.Data, defaultRC())
+		r := map[string]any{"outcome": o.Kind}
+		if o.Kind != "ok" {
+			r["err"] = o.Err
+			return r
+		}
+		rv, err := ReadReport(o.Report)
+		if err != nil {
+			r["outcome"] = "badreport"
+			return r
+		}
+		set := map[string]bool{}
+		for _, x := range rv.Results {
+			set[x.Severity+"|"+x.Shape+"|"+x.Focus] = true
+		}
+		r["results"] = sortedKeys(set)
+		r["pairs"] = rv.Pairs()
+		r["conforms"] = rv.Conforms
+		return r
+	}
+	res["a"] = one(h.Profile)
+	res["b"] = one(ch.ProfileB)
+	res["c"] = one(ch.ProfileC)
+	res["outcome"] = "ok"
 	return res
 }
